@@ -391,6 +391,42 @@ func c10More(l *lean) {
 	} else {
 		addTxs = []string{"Add:MISSING"}
 	}
+	// read-only transactions inside Add (there must be none: what Add decides about the event list it decides inside the
+	// write transaction that stores the list) and every call of readEventList / contains / insert / writeEventList in Add
+	// that is NOT inside a tl.db.Write callback
+	var addReads, outside []string
+	if fd := funcDecl(files["store.go"], "Add"); fd != nil {
+		var walk func(n ast.Node, inWrite bool)
+		walk = func(n ast.Node, inWrite bool) {
+			ast.Inspect(n, func(m ast.Node) bool {
+				c, ok := m.(*ast.CallExpr)
+				if !ok {
+					return true
+				}
+				fun := c10Src(fsets["store.go"], c.Fun)
+				if fun == "tl.db.Read" || fun == "tl.db.ReadShelf" {
+					addReads = append(addReads, fun)
+				}
+				if fun == "tl.db.Write" && !inWrite {
+					for _, a := range c.Args {
+						walk(a, true)
+					}
+					return false
+				}
+				if !inWrite {
+					for _, want := range []string{"readEventList", "contains", "insert", "applyFrom", "writeEventList"} {
+						if fun == want || strings.HasSuffix(fun, "."+want) {
+							outside = append(outside, want)
+						}
+					}
+				}
+				return true
+			})
+		}
+		walk(fd.Body, false)
+	}
+	l.def("addReadTransactions", "List String", leanStrList(addReads), addReads)
+	l.def("addEventListStepsOutsideWriteTx", "List String", leanStrList(outside), outside)
 	l.def("addWriteTransactions", "List String", leanStrList(addTxs), addTxs)
 	l.def("addBetweenTransactions", "List String", leanStrList(between), between)
 
